@@ -5,13 +5,29 @@
 From Coq Require Import ZArith List Bool NArith.
 Import ListNotations.
 Require Import PV.Core.Obj PV.Core.Val PV.Core.Cls PV.Core.Member PV.Core.CanAssignK PV.Core.C03Run.
-Require Import PV.Proofs.C03Main PV.Proofs.C03Witness PV.Gen.ClassTable.
+Require Import PV.Proofs.C03Main PV.Proofs.C03Okb PV.Proofs.C03Witness PV.Gen.ClassTable.
 
 (* for every class table: on every (type, object) pair derivable in the guard [ok]
    the model of is_assignable computes exactly the membership spec *)
 Theorem C03_known_assign_iff_member_partial : forall ct T o, ok ct T o -> ca ct T o = member ct T o.
 Proof. exact ok_ca_member. Qed.
 Print Assumptions C03_known_assign_iff_member_partial.
+
+(* the guard is decidable: okb (Core/C03Run.v) is a boolean procedure that implies ok;
+   the harness evaluates okb on every generated case *)
+Theorem C03_okb_sound : forall ct T o, okb ct T o = true -> ok ct T o.
+Proof. exact okb_sound. Qed.
+Print Assumptions C03_okb_sound.
+
+Theorem C03_known_assign_iff_member_decidable : forall ct T o, okb ct T o = true -> ca ct T o = member ct T o.
+Proof. exact okb_ca_member. Qed.
+Print Assumptions C03_known_assign_iff_member_decidable.
+
+Example C03_okb_examples :
+  okb table ex_T ex_o = true /\ okb table ex_td ex_td_obj = true /\ ca table ex_td ex_td_obj = true /\
+  okb table ex_T2 ex_o2 = true /\ member table ex_T2 ex_o2 = true.
+Proof. exact okb_examples. Qed.
+Print Assumptions C03_okb_examples.
 
 (* uniting the element literals before checking them is harmless when nothing is merged *)
 Theorem C03_dedup_safe_elements : forall (f : obj -> bool) es,
